@@ -206,7 +206,7 @@ func (poolSlice) Corpus() [][]string {
 	// every request index (init, each hint, each reload) with every fault kind and both ways of closing
 	for _, l := range []string{"single", "rend"} {
 		s := base
-		s.format, s.layout, s.nseg = "ll", l, 2
+		s.format, s.layout, s.nseg = "ll", l, 3 // hints at request 2, 4, 6: fault statuses 404, 503 and 301
 		s.skip = l == "rend"
 		out = append(out, mk(s)) // runs until the origin stops advertising hints
 		c := s
